@@ -33,7 +33,7 @@ class Prop(BaseProp):
                 "stdout_pages_matched"]
 
     def n_cases(self, tier):
-        return 300 if tier == "quick" else 5000
+        return 1500 if tier == "quick" else 20000
 
     def setup_worker(self):
         runner.cminx()
@@ -48,7 +48,8 @@ class Prop(BaseProp):
         inp_cfg = {"include_undocumented_function": rng.random() < 0.7, "include_undocumented_macro": rng.random() < 0.7,
                    "include_undocumented_option": rng.random() < 0.7}
         prefix = rng.choice([None, "Pfx"])
-        res.sig = sig_hash([single, outmode, home_has_cfg, recursive, prefix, sorted(inp_cfg.items())])
+        self._sig0 = [single, outmode, home_has_cfg, recursive, prefix, sorted(inp_cfg.items())]
+        res.sig = sig_hash(self._sig0)
         res.see("output_modes", outmode)
         with runner.sandbox() as sb:
             work = os.path.join(sb, "work")
@@ -59,6 +60,7 @@ class Prop(BaseProp):
                 os.makedirs(os.path.join(home, ".config", "cminx"))
             tree = gen_tree(rng, max_depth=rng.choice([0, 1, 3]), rich=True, case_twins=rng.random() < 0.3)
             tree.write(inp)
+            res.sig = sig_hash(self._sig0 + [tree.shape()])
             os.makedirs(os.path.join(sb, "elsewhere"))
             with open(os.path.join(sb, "elsewhere", "bystander.txt"), "w") as f:
                 f.write("x")
